@@ -277,13 +277,15 @@ SPECS["C06"] = dict(
 C08_H = ["arvados/c08_fs.go", "arvados/fskeep.go"]
 SPECS["C08"] = dict(
     level="model_checking",
-    outside="operation sequences longer than 2 (quick) / 3 (thorough) steps per file; block limits above 3 bytes (incl. the 64 MiB production limit); several handles per file; directory renames onto existing names (unspecified by the rule list); getternode / site-filesystem nodes",
-    assumptions=["fake Keep backend (blocks named by a counter; the filesystem never verifies hashes); contents written are symbolic bytes", "model: one byte array per file, POSIX semantics (a zero-length write has no effect)"],
+    outside="operation sequences longer than 2 (quick) / 3 (thorough) steps per file; block limits above 3 bytes (incl. the 64 MiB production limit); more than two handles per file or more than 3 operations across them; directory renames onto existing names (unspecified by the rule list); getternode / site-filesystem nodes",
+    assumptions=["fake Keep backend (blocks named by a counter; the filesystem never verifies hashes); contents written are symbolic bytes", "model: one byte array per file plus one offset per handle; a write at an offset beyond EOF zero-fills up to the offset, also when the data is empty (upstream TestSeekSparse pins this)"],
     runs=[
         dict(name="file", pkg="sdk/go/arvados", harness=C08_H, entry="GosymH_C08_file",
              params=dict(quick=dict(ops=2, maxblock=2, maxoff=4, maxlen=3, preloaded=0), thorough=dict(ops=3, maxblock=3, maxoff=4, maxlen=3, preloaded=0)), witnesses=["done", "empty-write-beyond-eof"]),
         dict(name="file-preloaded", pkg="sdk/go/arvados", harness=C08_H, entry="GosymH_C08_file",
              params=dict(quick=dict(ops=2, maxblock=2, maxoff=4, maxlen=2, preloaded=1), thorough=dict(ops=2, maxblock=3, maxoff=5, maxlen=3, preloaded=1)), witnesses=["done"]),
+        dict(name="handles", pkg="sdk/go/arvados", harness=C08_H, entry="GosymH_C08_handles",
+             params=dict(quick=dict(ops=3, maxblock=1, maxoff=3, lastseek=0), thorough=dict(ops=3, maxblock=2, maxoff=4, lastseek=1)), witnesses=["done"]),
         dict(name="flags", pkg="sdk/go/arvados", harness=C08_H, entry="GosymH_C08_flags", witnesses=["done"]),
         dict(name="dirs", pkg="sdk/go/arvados", harness=C08_H, entry="GosymH_C08_dirs", witnesses=["done"]),
     ],
@@ -296,7 +298,7 @@ SPECS["C09"] = dict(
     assumptions=["fake Keep backend whose k-th write fails for a solver-chosen k", "file contents are symbolic bytes; names in the save harness are concrete but include space, colon, backslash-digit sequences"],
     runs=[
         dict(name="escape", pkg="sdk/go/arvados", harness=C09_H, entry="GosymH_C09_escape", params=dict(quick=dict(maxlen=2), thorough=dict(maxlen=3)), witnesses=["done"]),
-        dict(name="save", pkg="sdk/go/arvados", harness=C09_H, entry="GosymH_C09_save", params=dict(quick=dict(maxfail=4), thorough=dict(maxfail=8)), witnesses=["saved", "save-failed-then-succeeded"]),
+        dict(name="save", pkg="sdk/go/arvados", harness=C09_H, entry="GosymH_C09_save", params=dict(quick=dict(maxfail=4, morefail=4), thorough=dict(maxfail=8, morefail=6)), witnesses=["saved", "save-failed-then-succeeded", "repeated-failed-saves"]),
     ],
 )
 
@@ -308,6 +310,8 @@ SPECS["C13"] = dict(
     runs=[
         dict(name="async", pkg="sdk/go/arvados", harness=["arvados/c13_async.go", "arvados/fskeep.go"], entry="GosymH_C13_async", replay="engine",
              params=dict(quick=dict(ops=2), thorough=dict(ops=3)), witnesses=["done", "writes-still-pending-at-save"]),
+        dict(name="flush", pkg="sdk/go/arvados", harness=["arvados/c13_async.go", "arvados/fskeep.go"], entry="GosymH_C13_flush", replay="engine",
+             params=dict(quick=dict(flushes=1), thorough=dict(flushes=2)), witnesses=["done", "flush-write-in-flight"]),
     ],
 )
 
